@@ -23,8 +23,10 @@ const ASCII_WORDS: [&str; 24] = [
 ];
 /// names that mean something to some layer of some stack (registered JWT / VC claim names, JSONPath and JSON Pointer syntax,
 /// URL escapes): to this library they are ordinary member names
-pub const NOTABLE_NAMES: [&str; 36] = [
+pub const NOTABLE_NAMES: [&str; 52] = [
     "x\"_sd", "said \"...", "\"_sd\":", "_sd\"", "..", "_sd_",
+    // names that merely begin or end like a reserved or registered name
+    "_sdk_version", "_sd_card", "_sdx", "_sd_algx", "_sd_al", "....", "...and more", "... ", " ...", "\u{2026}", "exp_", "issuer", "iat2", "cnf_", "a", "ab",
     "status", "vct", "jti", "nonce", "sd_hash", "typ", "alg", "kid", "jwk", "x5c", "type", "@context", "$", "$ref", "@", "*", "#", "..",
     "~0", "~1", "a~1b", "PROGRA~1", "a/b", "%2F", "%7E", "key with spaces", "0", "-1", "true", "null",
 ];
@@ -646,5 +648,32 @@ pub fn notable_claims(now: u64) -> Vec<(Value, Vec<String>)> {
         (base(json!({"status": {"status_list": {"idx": 7, "uri": "https://s.example"}}, "vct": "x", "jti": {"n": 1}, "type": ["A", "B"]})), vec!["$.status.status_list.idx".into(), "$.status".into(), "$.jti.n".into(), "$.type[1]".into()]),
         (base(json!({"key with spaces": {"tab\tname": 1, "line\nbreak": {"x": 1}, "\u{1}": 2}, "0": {"-1": [true]}, "true": {"null": null}})), vec!["$.key with spaces.tab\tname".into(), "$.key with spaces.line\nbreak.x".into(), "$.0.-1[0]".into(), "$.true.null".into()]),
         (base(json!({"cnf": {"kid": "k-1", "jwk2": {"kty": "EC"}}, "other": 1})), vec!["$.cnf.kid".into(), "$.cnf.jwk2.kty".into()]),
+        // sibling names one of which is a proper prefix of the other, with members / elements named like the remainder: a path
+        // designates exactly the claim it spells
+        (base(json!({"a": {"b": 1, "bc": {"d": 2}, "b.c": 3}, "ab": 4, "abc": {"d": 5}, "a.b": 6})), vec!["$.ab".into()]),
+        (base(json!({"a": {"b": 1, "bc": {"d": 2}, "b.c": 3}, "ab": 4, "abc": {"d": 5}, "a.b": 6})), vec!["$.abc.d".into(), "$.a.b".into()]),
+        (base(json!({"a": {"b": 1, "bc": {"d": 2}, "b.c": 3}, "ab": 4, "abc": {"d": 5}, "a.b": 6})), vec!["$.a.bc".into()]),
+        (base(json!({"k": {"1": "x", "1[0]": "y", "10": ["z"]}, "k1": ["p", "q"], "k10": [1, 2], "k1[0]": "w"})), vec!["$.k1[0]".into()]),
+        (base(json!({"k": {"1": "x", "1[0]": "y", "10": ["z"]}, "k1": ["p", "q"], "k10": [1, 2], "k1[0]": "w"})), vec!["$.k10.[1]".into(), "$.k.1".into()]),
+        (base(json!({"list": [["a", "b"], ["c"]], "list[0]": [1, 2], "lis": {"t": [9, 8]}})), vec!["$.list[0][1]".into()]),
+        (base(json!({"list": [["a", "b"], ["c"]], "list[0]": [1, 2], "lis": {"t": [9, 8]}})), vec!["$.lis.t[0]".into(), "$.list[1]".into()]),
+        // names that begin like the reserved ones
+        (base(json!({"_sdk_version": {"major": 1}, "....": {"x": [1, 2]}, "...and more": 3, "nested": {"_sd_": {"_sdx": 1}, "... ": [true]}})), vec!["$._sdk_version.major".into(), "$......x[0]".into(), "$.nested._sd_._sdx".into()]),
     ]
+}
+
+/// long strings of multi-byte characters in every phase: whatever cuts a text at a BYTE offset (to abbreviate it in a message, to
+/// take a prefix) lands inside a character in at least two of the three 3-byte fillers, at every offset
+pub fn multibyte_fillers() -> Vec<String> {
+    let mut out = vec![];
+    for phase in 0..3 {
+        out.push(format!("{}{}", "x".repeat(phase), "\u{20ac}".repeat(1400)));
+    }
+    for phase in 0..2 {
+        out.push(format!("{}{}", "x".repeat(phase), "\u{e9}".repeat(2100)));
+    }
+    for phase in 0..4 {
+        out.push(format!("{}{}", "x".repeat(phase), "\u{1f600}".repeat(1100)));
+    }
+    out
 }
